@@ -28,8 +28,8 @@ MM = ['text', 'with-delimiters', 'verbatim', 'remove']
 SLS = ['macros', 'based-on-source', True]
 OPTS = [(m, kc, s, ft) for m in MM for kc in (False, True) for s in SLS for ft in (None, 20)]
 NSL = 48
-DISCARD = {'default': {'macros': {'label'}, 'envs': set()},
-           'custom': {'macros': {'label', 'emph'}, 'envs': {'foo'}}}
+DISCARD = {'default': {'macros': {'label', 'hspace'}, 'envs': set()},
+           'custom': {'macros': {'label', 'hspace', 'emph'}, 'envs': {'foo'}}}
 _L2T = {}
 
 
@@ -77,7 +77,7 @@ def mark(items, counter, flags, out, db):
                 f['discard'] = True
             vals = []
             for si, (sl, v) in enumerate(zip(docgen.SIGS['C']['macros'][name], it[2])):
-                sl = dict(sl, unrendered=(name == 'sqrt' and si == 0))     # sqrt renders as '√(<arg 2>)'
+                sl = dict(sl, unrendered=((name == 'sqrt' and si == 0) or name == '\\'))     # sqrt renders as '√(<arg 2>)', \\[..] as a line break
                 vals.append(_mark_val(v, counter, f, out, db, sl))
             res.append(('Call', name, tuple(vals)))
         elif k == 'Env':
@@ -130,7 +130,7 @@ def formulas(nodes, discard_names, inside_discard=False, out=None):
             continue
         if getattr(n, 'nodeargd', None) is not None and n.nodeargd.argnlist:
             for ai, a in enumerate(n.nodeargd.argnlist):
-                if a is None or (k == 'macro' and n.macroname == 'sqrt' and ai == 0) or k == 'environment':
+                if a is None or (k == 'macro' and n.macroname == 'sqrt' and ai == 0) or k == 'environment' or (k == 'macro' and n.macroname == '\\'):
                     continue
                 if canon.kind_of(a) == 'group':
                     formulas(a.nodelist, discard_names, False, out)
@@ -142,6 +142,9 @@ def formulas(nodes, discard_names, inside_discard=False, out=None):
 
 
 def check_items(items, devs, acc):
+    if docgen.bracket_under_nested_pair(items):
+        acc.count('known_c02_finding')      # recorded C02 finding: such a document is not parsed as written
+        return
     for db in ('default', 'custom'):
         markers = []
         mitems = mark(items, [0], dict(math=False, discard=False, disc_at_formula=None), markers, db)
@@ -215,15 +218,75 @@ def check_items(items, devs, acc):
         acc.outcome((db, tuple(sorted((k, a, b, c) for (_, k, a, b, c) in markers))))
 
 
+# the equation environments of the default text database (documented set, transcribed - not imported)
+MATH_ENVS_L2T = ['equation', 'equation*', 'eqnarray', 'eqnarray*', 'align', 'align*', 'multline', 'multline*',
+                 'gather', 'gather*', 'dmath', 'dmath*']
+ENV_FRAMES = [('top', '%s', False), ('text-around', 'A1x %s B2x', False), ('group', '{%s}', False), ('macro-arg', '\\textbf{%s}', False),
+              ('item', '\\begin{itemize}\\item %s\\end{itemize}', False), ('unknown-env', '\\begin{foo}%s\\end{foo}', 'custom'),
+              ('emph', '\\emph{%s}', 'custom'), ('label', '\\label{%s}', True)]
+
+
+def check_mathenvs(acc, only=None):
+    for env in MATH_ENVS_L2T:
+        body = 'W1x %C2x\n W3x'
+        src = '\\begin{%s}%s\\end{%s}' % (env, body, env)
+        for (fname, frame, disc) in ENV_FRAMES:
+            text = frame % src
+            if only is not None and only != text:
+                continue
+            acc.count('evaluations')
+            acc.count('nontrivial')
+            acc.count('mathenv_documents')
+            st, res = run_guarded(contexts.parse, text, 'C', False)
+            if st != 'ok':
+                acc.count('not_parsed')
+                continue
+            nodes = res[1]
+            for db in ('default', 'custom'):
+                discarded = (disc is True) or (disc == db)
+                for o in OPTS:
+                    mm, kc, sls, ft = o
+                    st, out = run_guarded(l2t_obj(db, o).nodelist_to_text, nodes)
+                    acc.count('renderings')
+                    case = dict(s=text, db=db, opt=[str(x) for x in o], env=env, frame=fname)
+                    if st != 'ok' or not isinstance(out, str):
+                        acc.violation(ID, 'mathenvs', case, dict(kind='latex2text-raises', exc=type(out).__name__ if st == 'exc' else st))
+                        break
+                    bad = None
+                    if discarded:
+                        if 'W1x' in out or 'W3x' in out or 'C2x' in out:
+                            bad = dict(kind='discarded-content-leaked', db=db)
+                    elif mm == 'remove':
+                        if 'W1x' in out or 'W3x' in out or 'C2x' in out:
+                            bad = dict(kind='formula-content-leaked-under-remove')
+                    elif mm == 'verbatim':
+                        if src not in out:
+                            bad = dict(kind='verbatim-formula-source-missing')
+                    else:
+                        if 'W1x' not in out or 'W3x' not in out:
+                            bad = dict(kind='visible-text-missing', math_mode=mm, in_math=True)
+                        elif kc and '%C2x' not in out:
+                            bad = dict(kind='kept-comment-missing', math_mode=mm, in_math=True)
+                        elif not kc and 'C2x' in out:
+                            bad = dict(kind='comment-text-leaked', math_mode=mm, in_math=True)
+                        elif mm == 'with-delimiters' and ('\\begin{%s}' % env not in out or '\\end{%s}' % env not in out):
+                            bad = dict(kind='formula-delimiters-missing')
+                    if bad:
+                        bad['math_environment'] = True
+                        acc.violation(ID, 'mathenvs', case, bad, observed=repr(out)[:300])
+                        break
+
+
 def plan(tier):
-    shards = [(pi, k) for pi in range(len(PROFILES[tier])) for k in range(NSL)]
+    shards = [(pi, k) for pi in range(len(PROFILES[tier])) for k in range(NSL)] + [('mathenvs', 0)]
     return dict(
         shards=shards, bounds=dict(profiles=PROFILES[tier], option_sets=len(OPTS), databases=['default', 'custom (emph, foo discard=True)']),
         rule=('core grammar + \\label (mc/docgen.py SIGS["C"]): ' + '; '.join('size <= %d, <= %s non-default argument forms, <= %d deviations'
               % (p['size'], p['cmax'] if p['cmax'] < 99 else 'any', p['d']) for p in PROFILES[tier]) +
               '; every text item and comment replaced by a unique marker word; x 48 option sets (4 math_mode x keep_comments x 3 whitespace '
               'policies x fill_text in {None, 20}) x 2 text databases.  one evaluation = one (document, database) under all option sets; '
-              'non-trivial = documents with at least one marker.'),
+              'non-trivial = documents with at least one marker.  plus each of the 12 equation environments of the default text database '
+              '(align*, multline*, dmath, ...) with marked content in 8 positions under all option sets and both databases.'),
         assumptions=['outermost formulas are located in the parsed tree (C01/C02); marker classes (in formula / in discarded construct) come from the derivation',
                      'comments between a macro and its argument are consumed by the parser by design and are not generated as marker comments'],
     )
@@ -231,6 +294,9 @@ def plan(tier):
 
 def run_shard(shard, tier, acc):
     pi, k = shard
+    if pi == 'mathenvs':
+        check_mathenvs(acc)
+        return
     p = PROFILES[tier][pi]
     for items in docgen.iter_doc_slice(p, k):
         base = docgen.render(items, 'C')
@@ -242,6 +308,10 @@ def run_shard(shard, tier, acc):
 
 def replay(sub, case):
     acc = engine.Acc()
+    if sub == 'mathenvs':
+        check_mathenvs(acc, only=case['s'])
+        acc.violations = [v for v in acc.violations if v['case'].get('db') == case.get('db')]
+        return acc.violations
     items = eval(case['items'], {'__builtins__': {}}, {})
     devs = {int(k): v for k, v in case.get('devs', {}).items()}
     check_items(items, devs, acc)
